@@ -214,6 +214,9 @@ var lexPieces = []string{
 	// runes a text layer might take for white space or drop: vertical tab, form feed, NEL, no-break space, em space,
 	// ideographic space, line separator, byte order mark, zero width space
 	"\v", "\f", "\u0085", "\u00a0", "\u2003", "\u3000", "\u2028", "\ufeff", "\u200b", "1s500µ", "2ms250µ",
+	// spellings a lenient scanner might take for one token: exponents, a minus inside a name, a quoted part glued to a
+	// bare one, comments without a blank behind the dashes
+	"e", "E", "1e", "1e6", "1e+x", "2.5E-3", "7e+", "3.5e-)", "e+", "1E-", "b-c", "cpu-total", "x-1", "\"a\"b", "\"q\"\"r\"", "a\"b\"", "--c", "--1", "1--1", "/*/", "/*/*/", "/*/ x */", "0x1F", "1_000", "1.e5", ".e1",
 }
 
 func lexRandom(o *out, r *rng, n int, direct bool) {
